@@ -121,7 +121,7 @@ theorem exaPackGroup_good (sizeOf : Nat → Nat) (v6 : Bool) (text : List TComp)
       simp only [compOfGroup, encodeFlow_single, toRaw, encodeRawComp]
       rw [termsOf_eq _ _ hfirst]
 
-theorem exaEncodeLength_eq (n : Nat) (h : n < 4095) : exaEncodeLength n = .ok (lengthPrefix n) := by
+theorem exaEncodeLength_eq (n : Nat) (h : n ≤ 4095) : exaEncodeLength n = .ok (lengthPrefix n) := by
   simp only [exaEncodeLength, lengthPrefix]
   split
   · rfl
@@ -130,7 +130,7 @@ theorem exaEncodeLength_eq (n : Nat) (h : n < 4095) : exaEncodeLength n = .ok (l
 /-- **ExaBGP's encoder on good text.** -/
 theorem exaPack_good (sizeOf : Nat → Nat) (v6 : Bool) (rd : Option Bytes) (text : List TComp)
     (hs : SizesOk sizeOf) (hg : GoodText v6 text)
-    (hlen : (nlriPayload ⟨rd, toRule v6 text⟩).length < 4095) :
+    (hlen : (nlriPayload ⟨rd, toRule v6 text⟩).length ≤ 4095) :
     exaPack sizeOf rd text = .ok (text.any (fun c => c.isV6), encodeNlri ⟨rd, toRule v6 text⟩) := by
   have hadd : exaAdd false [] text = (false || text.any (fun c => c.isV6), [] ++ text) := by
     apply exaAdd_same_family v6
